@@ -204,8 +204,9 @@ class RecordT(Ty):
 class MapT(Ty):
     """dict keyed by ints (or int enums) with lazily materialised values of `vtype`."""
 
-    def __init__(self, vtype, default_factory=None, card=False, keys=None):
+    def __init__(self, vtype, default_factory=None, card=False, keys=None, entry_inv=None):
         self.vtype, self.default_factory, self.card, self.keys = vtype, default_factory, card, keys
+        self.entry_inv = entry_inv  # callable(I, key term, value) -> z3 fact assumed of every entry present at entry
 
     def fresh(self, I, name):
         from . import smap
@@ -217,7 +218,28 @@ class MapT(Ty):
             I.ctx.assume(card >= 0)
         m = smap.SMap(name, has, self.vtype, None, self.default_factory, card)
         m.keydom = self.keys  # instantiated per materialised key (type invariant of the map)
+        m.entry_inv = self.entry_inv
         return m
+
+
+class SetT(Ty):
+    """set of ints (membership array + cardinality ghost); `empty_means_none`: card == 0 <=> no member"""
+
+    def __init__(self, lo=None, hi=None):
+        self.lo, self.hi = lo, hi
+
+    def fresh(self, I, name):
+        from . import smap
+
+        has = z3.Array(I.ctx.fresh_name(name + ".has"), z3.IntSort(), z3.BoolSort())
+        card = I.ctx.fresh_int(name + ".len")
+        I.ctx.assume(card >= 0)
+        x = z3.Int(I.ctx.fresh_name("m"))
+        # cardinality and membership agree at the boundary: empty <=> nothing is a member
+        I.ctx.assume(z3.Implies(card == 0, z3.ForAll([x], z3.Not(z3.Select(has, x)))))
+        if self.lo is not None:
+            I.ctx.assume(z3.ForAll([x], z3.Implies(z3.Select(has, x), z3.And(x >= self.lo, x <= self.hi))))
+        return smap.SSet(name, has, card)
 
 
 class CollT(Ty):
@@ -305,6 +327,10 @@ class T:
     @staticmethod
     def map(vtype, **kw):
         return MapT(vtype, **kw)
+
+    @staticmethod
+    def set_(**kw):
+        return SetT(**kw)
 
     @staticmethod
     def coll(etype, **kw):
@@ -448,6 +474,16 @@ class Contract:
         self.setup = None
         self.cancellable = True
         self.await_asserts = []  # (id, lambda) checked at every suspension point
+
+    def restrict(self, prop, cases=None, obligations=None):
+        """For property `prop` only these cases / obligations of the contract are part of its check (the
+        contract serves several properties; each claims what its statement is about)."""
+        if "restrictions" not in self.__dict__:
+            self.restrictions = {}
+        self.restrictions[prop] = (cases, obligations)
+        return self
+
+    restrictions = {}
 
     def witness(self, loop_ordinal, cid, lam):
         """Native counterpart of a loop at_entry clause: a predicate over the effects of a whole native run
